@@ -1,8 +1,45 @@
 (** C03 - Every prefix of the event stream is referentially closed (parents first). *)
-From Hermes Require Import Model.Objects Model.Server Proofs.Objects Proofs.Server.
+From Hermes Require Import Model.Objects Model.Server Proofs.Objects Proofs.Server Proofs.Closed.
+
+(** With types declared parents first, a closed published state and a closed new view, the
+    state a reader reconstructs after ANY prefix of the cycle's stream (hence also after a
+    cycle cut short by a bus failure) is referentially closed: parents are announced before
+    their children, children are withdrawn before their parents.  For every configuration,
+    view pair and ordering hint of the 'modified' events. *)
+Theorem C03_every_prefix_closed : forall c hint n o P Q,
+  cfg_ok c -> parents_first c -> wclosed c (vis c n) -> wclosed c (vis c o) ->
+  gen_events_h c hint n o = P ++ Q -> wclosed c (replay P (vis c o)).
+Proof. exact prefix_closed. Qed.
+Print Assumptions C03_every_prefix_closed.
 
 (** Events about one object: at most one per cycle, so they appear in poll order. *)
 Theorem C03_per_object_order : forall c hint n o,
   cfg_ok c -> NoDup (map ev_id (gen_events_h c hint n o)).
 Proof. exact gen_events_h_NoDup. Qed.
 Print Assumptions C03_per_object_order.
+
+(** the order facts behind it *)
+Theorem C03_parents_announced_first : forall c hint n o tc1 tc2 e1 e2,
+  cfg_ok c -> before c tc1 tc2 -> e1 ∈ ev_added tc1 n o -> e2 ∈ ev_added tc2 n o ->
+  pre (gen_events_h c hint n o) e1 e2.
+Proof. intros c hint n o tc1 tc2 e1 e2 Hc. exact (pre_added_parent_first c hint n o Hc tc1 tc2 e1 e2). Qed.
+Print Assumptions C03_parents_announced_first.
+Theorem C03_children_withdrawn_first : forall c hint n o tc1 tc2 e1 e2,
+  cfg_ok c -> before c tc1 tc2 -> e1 ∈ ev_removed tc1 n o -> e2 ∈ ev_removed tc2 n o ->
+  pre (gen_events_h c hint n o) e2 e1.
+Proof. intros c hint n o tc1 tc2 e1 e2 Hc. exact (pre_removed_child_first c hint n o Hc tc1 tc2 e1 e2). Qed.
+Print Assumptions C03_children_withdrawn_first.
+
+(** non-vacuity: a parent type 1 and a child type 2 whose attribute 5 refers to it *)
+Definition ex_c : cfg := [TCfg 1 [] [] [] [] false false; TCfg 2 [] [] [] [(5%N, 1%N)] false false].
+Definition ex_o : world := {[ (1%N, 7%Z) := {[ 4%N := VInt 7 ]} ]}.
+Definition ex_n : world := {[ (1%N, 8%Z) := {[ 4%N := VInt 8 ]}; (2%N, 1%Z) := {[ 5%N := VInt 8 ]} ]}.
+Example C03_hypotheses_satisfiable : cfg_ok ex_c /\ parents_first ex_c /\ length (gen_events_h ex_c [] ex_n ex_o) = 3%nat.
+Proof.
+  split; [|split].
+  - unfold cfg_ok. cbn. repeat constructor; set_solver.
+  - intros tc a pt Hin Hfk. destruct Hin as [<-|[<-|[]]]; cbn in Hfk; [destruct Hfk|].
+    destruct Hfk as [Hfk|[]]. inversion Hfk; subst.
+    exists (TCfg 1 [] [] [] [] false false). split; [reflexivity|]. exists [], [], []. reflexivity.
+  - vm_compute. reflexivity.
+Qed.
